@@ -278,8 +278,8 @@ func (p *broadcastProtocol) pubPeerMsg(peerID peer.ID, msgID int32, msg types.Me
 
 func (p *broadcastProtocol) postBlockChain(blockHash, receiveFrom string, block *types.Block, publisher peer.ID) error {
 	msg, err := p.P2PManager.PubBroadCast(blockHash, &types.BlockPid{Pid: publisher.Pretty(), Block: block}, types.EventBroadcastAddBlock)
-	// 关闭广播验证(disableValidation)时val为空
-	if err == nil && p.val != nil {
+	// 关闭广播验证(disableValidation)时val为空; 多种p2p类型并存时重复数据不再发送, msg为空
+	if err == nil && msg != nil && p.val != nil {
 		p.val.addBroadcastMsg(&broadcastMsg{msg: msg, publisher: publisher, hash: blockHash})
 	}
 	return err
@@ -287,7 +287,7 @@ func (p *broadcastProtocol) postBlockChain(blockHash, receiveFrom string, block 
 
 func (p *broadcastProtocol) postMempool(txHash string, tx *types.Transaction, publisher peer.ID) error {
 	msg, err := p.P2PManager.PubBroadCast(txHash, tx, types.EventTx)
-	if err == nil && p.val != nil {
+	if err == nil && msg != nil && p.val != nil {
 		p.val.addBroadcastMsg(&broadcastMsg{msg: msg, publisher: publisher, hash: txHash})
 	}
 	return err
